@@ -279,7 +279,11 @@ fn run_new<T: Num>(s: &str, counts: &str) -> String {
     let cs: Vec<T> = if counts == "all" {
         T::all()
     } else {
-        counts.split(',').filter(|x| !x.is_empty()).map(|x| T::parse_count(x).expect("count numeral")).collect()
+        // a count the harness itself cannot read is a generator error, never to be confused with a panic of the code under test
+        match counts.split(',').filter(|x| !x.is_empty()).map(T::parse_count).collect::<Option<Vec<T>>>() {
+            Some(v) => v,
+            None => return "BADCOUNT\t\t".into(),
+        }
     };
     let e = env();
     let ranges = Ranges {
